@@ -399,7 +399,7 @@ def gen_chart(rng, tier, small=False):
     if rng.random() < 0.8:
         w = lambda: rng.choice(WORDS)
         wo = lambda: rng.choice(ODD_WORDS if (odd and rng.random() < 0.5) else WORDS)
-        # title / artist go through unidecode, which turns U+2028 / U+2029 into line breaks (finding D102): drawn from a
+        # title / artist go through unidecode, which turns U+2028 / U+2029 into line breaks (finding D44): drawn from a
         # vocabulary without them except in the rare witness cases below
         wa = lambda: rng.choice((["x\x85y", "p\x0bq", "r\x1cs"] if (odd and rng.random() < 0.3) else []) or WORDS)
         meta.update(audio_file_name=rng.choice(["audio.mp3", "a b.ogg", "音.mp3", ""] + (ODD_NAMES if odd else [])), title=wa(),
@@ -420,7 +420,7 @@ def gen_chart(rng, tier, small=False):
         key = rng.choice(["audio_lead_in", "hp_drain_rate", "overall_difficulty", "distance_spacing", "timeline_zoom"])
         meta[key] = rng.choice([1000000, 1234567, 20000000]) if key == "audio_lead_in" else rng.choice([7.1234567, 1 / 3, 0.12345678])
     if rng.random() < 0.02:
-        # a romanised title / artist whose transliteration contains a line break (known finding D102)
+        # a romanised title / artist whose transliteration contains a line break (known finding D44)
         meta[rng.choice(["title", "artist"])] = rng.choice(["a\u2028b", "夜\u2029に", "x\u2028"])
     return dict(meta=meta, bpms=bpms, svs=svs, hits=hits, holds=holds)
 
@@ -1006,8 +1006,8 @@ def _impl_read_text(text):
         os.remove(path)
 
 
-def D102(meta):
-    """predicate of the known finding D102: unidecode turns U+2028 / U+2029 of title / artist into line breaks"""
+def D44(meta):
+    """predicate of the known finding D44: unidecode turns U+2028 / U+2029 of title / artist into line breaks"""
     from unidecode import unidecode
     return any("\n" in unidecode(meta[k]) or "\r" in unidecode(meta[k]) for k in ("title", "artist"))
 
@@ -1137,7 +1137,7 @@ def run_write(case, drv, cycle=False):
     wire, boundary = _wire_with_boundary(ch, uni=False)
     model_text = "\n".join(render(drv.call("c01.write", chart=wire)["ok"]))
     lossy = g_lossy(ch["meta"])
-    d102 = D102(ch["meta"])
+    d102 = D44(ch["meta"])
     if impl[0] == "err":
         return dict(claim=case["claim"], ok=False, agree=False, dom=True, tags=["write-raises", impl[1]], nontrivial=True,
                     detail=dict(impl=impl))
@@ -1175,7 +1175,7 @@ def run_write(case, drv, cycle=False):
     # (S) times moved by less than 1 ms, columns kept
     if ok and back[0] == "ok":
         ok &= moved_less_than_1ms(c_r, ch, back[1])
-    kf = "D102" if (not ok and d102) else None
+    kf = "D44" if (not ok and d102) else None
     n = len(ch["hits"]) + len(ch["holds"]) + len(ch["bpms"]) + len(ch["svs"])
     tags += ["K%d" % int(ch["meta"]["circle_size"]), "n%d" % min(3, n)] + (["g-lossy"] if lossy else [])
     if any(o in impl_text for o in ODD):
